@@ -11,7 +11,9 @@ K3  the property's own oracle on the real code, independent of the model: a case
     ariadne_codegen.exceptions class whose message names the problem, leave the tree (names, sizes,
     hashes, mtimes) and the configuration dict untouched; a valid variant must be accepted; unknown
     keys must not change the outcome.
-Finding classes (known_findings/C17.json): F16-name-not-validated, F17-invalid-schema-not-rejected.
+Finding class (known_findings/C17.json): F17-invalid-schema-not-rejected (open).  The former class
+F16-name-not-validated is fixed in /repo 0631414; its witnesses (keywords, unusable fragments_module_name)
+are ordinary single-constraint violations of the main stream now.
 Inside a finding class a case that satisfies the property (e.g. on a repaired tree) is never an error.
 """
 from __future__ import annotations
@@ -326,23 +328,17 @@ def judge(ctx, case, obs, mres, twin_obs):
     # ---------------- K1
     k1 = []
     outcome, effects, nowrites = mres[0]
-    guard_false = False
     if len(mres) > 1 and isinstance(mres[1], list) and len(mres[1]) >= 2 and isinstance(mres[1][1], list) \
-            and len(mres[1][1]) == 3:
-        info = mres[1][1]
-        enforced, strict, guard = info
-        guard_false = guard == "f"
-        viol_strict = [k for k, v in strict if v == "f"]
-        viol_enf = [k for k, v in enforced if v == "f"]
-        run.dist("violated_strict", ",".join(viol_strict) or "none")
+            and len(mres[1][1]) == 1 and isinstance(mres[1][1][0], list):
+        table = mres[1][1][0]
+        violated = [k for k, v in table if v == "f"]
+        run.dist("violated_constraints", ",".join(violated) or "none")
         # generator label vs the model's documented-constraint table
-        if case["group"] in ("valid", "valid-schema") and viol_strict:
-            k1.append(f"generator says valid, model's documented constraints violated: {viol_strict}")
+        if case["group"] in ("valid", "valid-schema") and violated:
+            k1.append(f"generator says valid, model's documented constraints violated: {violated}")
         if case["group"] in ("violation", "violation-schema") and case.get("constraint"):
-            if viol_strict != [case["constraint"]]:
-                k1.append(f"generator says single violation of {case['constraint']}, model table says {viol_strict}")
-        if case["group"] in ("violation", "violation-schema") and (in_class == "F16-name-not-validated") != (guard_false and not viol_enf):
-            k1.append(f"finding-class label {in_class} vs model guard {guard} / enforced violations {viol_enf}")
+            if violated != [case["constraint"]]:
+                k1.append(f"generator says single violation of {case['constraint']}, model table says {violated}")
     if outcome[0] == "ill":
         run.dist("model", "ill-typed (out of scope)")
         k1 = []
